@@ -36,6 +36,11 @@ fn reset_event(w: &mut World) -> J {
     m.insert("has".into(), json!(false));
     m.insert("rvs".into(), json!(""));
     m.insert("post".into(), post);
+    m.insert("views".into(), json!([]));
+    m.insert("mid".into(), json!({"n": [], "cons": true}));
+    let none = json!({"has": false, "res": "na", "re": "na", "root": 0, "retree": {"n": [], "cons": true, "eo": false, "rs": [], "bad": ""}, "reroot": 0, "text": []});
+    m.insert("spre".into(), none.clone());
+    m.insert("spost".into(), none);
     m.insert("back".into(), json!(0));
     ev
 }
@@ -45,15 +50,21 @@ fn forest_drive(args: &[String]) {
     let episodes: usize = arg(args, "--episodes", "100").parse().unwrap();
     let len: usize = arg(args, "--len", "40").parse().unwrap();
     let maxnodes: usize = arg(args, "--maxnodes", "24").parse().unwrap();
+    let forced = arg(args, "--profile", "");
+    let views = flag(args, "--views");
     let out = arg(args, "--out", "/dev/stdout");
     let mut f = BufWriter::new(std::fs::File::create(&out).expect("create out"));
     let mut master = Rng::new(seed);
     for ep in 0..episodes {
         let mut r = master.fork();
-        let profile = match ep % 5 {
-            0 => "nocons",
-            1 => "ws",
-            _ => "std",
+        let profile = if !forced.is_empty() {
+            forced.as_str()
+        } else {
+            match ep % 5 {
+                0 => "nocons",
+                1 => "ws",
+                _ => "std",
+            }
         };
         let mut w = World::new();
         // start forest: sometimes a parsed document so that trees have depth from the start
@@ -79,7 +90,7 @@ fn forest_drive(args: &[String]) {
                 break;
             }
             let o = random_op(&w, &mut r, profile);
-            let mut ev = step(&mut w, &o);
+            let mut ev = forest::step_obs(&mut w, &o, views);
             ev.as_object_mut().unwrap().insert("back".into(), json!(1));
             let bad = ev["res"] == "panic" || w.corrupt;
             writeln!(f, "{}", ev).unwrap();
@@ -97,6 +108,8 @@ fn forest_replay(args: &[String]) {
     let states = arg(args, "--states", "");
     let out = arg(args, "--out", "/dev/stdout");
     let full = flag(args, "--full");
+    let views = flag(args, "--views");
+    let only: Vec<String> = arg(args, "--ops", "").split(',').filter(|x| !x.is_empty()).map(|x| x.to_string()).collect();
     let sample: u64 = arg(args, "--sample", "1").parse().unwrap(); // keep 1 of every `sample` op instances
     let seed: u64 = arg(args, "--seed", "1").parse().unwrap();
     let mut r = Rng::new(seed);
@@ -119,7 +132,16 @@ fn forest_replay(args: &[String]) {
         built += 1;
         let ev = reset_event(&mut w0);
         writeln!(f, "{}", ev).unwrap();
-        let ops = all_ops(&w0, full);
+        let mut ops = all_ops(&w0, full);
+        if !only.is_empty() {
+            // restricted replay: the listed single-node operations on every live node
+            ops = vec![];
+            for id in w0.live_ids() {
+                for name in &only {
+                    ops.push(Op::new(name, &[id]));
+                }
+            }
+        }
         let mut back = 0;
         for o in ops {
             if sample > 1 && r.next() % sample != 0 {
@@ -127,7 +149,7 @@ fn forest_replay(args: &[String]) {
             }
             let mut w = World::build(&st).unwrap();
             back += 1;
-            let mut ev = step(&mut w, &o);
+            let mut ev = forest::step_obs(&mut w, &o, views);
             ev.as_object_mut().unwrap().insert("back".into(), json!(back));
             writeln!(f, "{}", ev).unwrap();
         }
